@@ -95,10 +95,12 @@ class ParserEngine(ParserCore, CanParse):
             self.input = input
             self.states = ParseStateStack(cursor=input.newcursor())
             assert not isinstance(self.state.cursor, NullCursor)
-            self._reset()
-
+            # NOTE: before _reset(), which takes the semantics of this parse
+            #   from the configuration
             if not self.config.semantics and asmodel:
                 self.config.semantics = ModelBuilderSemantics()
+            self._reset()
+
             if self.config.semantics and hasattr(self.config.semantics, 'set_context'):
                 self.config.semantics.set_context(self)  # ty: ignore[call-non-callable]
 
